@@ -148,7 +148,10 @@ fn drain_case(i: &Init) -> Option<Bad> {
 fn alphabet(cap: u8) -> Vec<Act> {
     let mut v = vec![Act::Next, Act::Exhausted];
     for k in 0..=cap + 1 {
-        v.push(Act::Frames(k));
+        // large capacities (scale probes): batch sizes at structured values only
+        if cap <= 5 || k <= 1 || k + 1 >= cap {
+            v.push(Act::Frames(k));
+        }
     }
     v
 }
@@ -261,7 +264,18 @@ fn main() {
             }
         }
     }
-    ctx.rule(&format!("initial states: capacity 1..=4 (thorough 1..=5) x every prefill (start,len) x source length 0..=2cap+1 ({} states); actions next(), next_frames().take(k) for k in 0..=cap+1 (k=cap+1 observes the None), is_exhausted(); unmerged: every history to depth {depth} replayed on a fresh Buffered over an instrumented source; merged: stateright BFS to fixpoint on (ring start, ring len, pulled, delivered) through witness replay, horizon two refills past the source's end; oracle: delivered stream == prefill ++ source ++ equilibrium, source pulled exactly `capacity` times when an operation finds the ring empty and never otherwise, is_exhausted == (ring empty and source exhausted), until_exhausted() from every initial state == prefill ++ source ++ pad with pad < capacity; distinct by (initial state, history)", inits.len()));
+    // scale probes (merged run only): capacities 8 and 16 from structured initial states
+    let mut big_inits = Vec::new();
+    for cap in [8u8, 16] {
+        for start in [0, cap - 1] {
+            for len in [0, 1, cap - 1, cap] {
+                for src in [0, 1, cap - 1, cap, cap + 1, 2 * cap + 1] {
+                    big_inits.push(Init { cap, start, len, src });
+                }
+            }
+        }
+    }
+    ctx.rule(&format!("initial states: capacity 1..=4 (thorough 1..=5) x every prefill (start,len) x source length 0..=2cap+1 ({} states); actions next(), next_frames().take(k) for k in 0..=cap+1 (k=cap+1 observes the None), is_exhausted(); unmerged: every history to depth {depth} replayed on a fresh Buffered over an instrumented source; merged: stateright BFS to fixpoint on (ring start, ring len, pulled, delivered) through witness replay, horizon two refills past the source's end; oracle: delivered stream == prefill ++ source ++ equilibrium, source pulled exactly `capacity` times when an operation finds the ring empty and never otherwise, is_exhausted == (ring empty and source exhausted), until_exhausted() from every initial state == prefill ++ source ++ pad with pad < capacity; scale probes (merged run and drain only): capacities 8 and 16 from structured (start, len, source length) states with batch sizes 0,1,cap-1,cap,cap+1; distinct by (initial state, history)", inits.len()));
     guard::set_hang_secs(300);
     let tot: Vec<(u64, u64)> = inits
         .par_iter()
@@ -283,7 +297,13 @@ fn main() {
     let hist: u64 = tot.iter().map(|t| t.0).sum();
     let steps: u64 = tot.iter().map(|t| t.1).sum();
     ctx.add_distinct_counted(hist.min(1 << 40) - inits.len() as u64);
-    let res: Vec<(usize, usize)> = inits
+    let all_merged: Vec<Init> = inits.iter().chain(big_inits.iter()).copied().collect();
+    for i in &big_inits {
+        if let Some((k, m)) = drain_case(i) {
+            ctx.violation(&k, case_json(i, &[]), m, None);
+        }
+    }
+    let res: Vec<(usize, usize)> = all_merged
         .par_iter()
         .map(|i| {
             let c = BufModel { ctx, init: *i }.checker().threads(1).spawn_bfs().join();
